@@ -157,6 +157,8 @@ def str_eq(a, b):
             if len(o.segs) == 1 and isinstance(o.segs[0], tuple) and o.segs[0][0] == 'num':
                 return n.v == o.segs[0][1]
             return False if all(isinstance(x, str) or x[0] != 'num' for x in o.segs) and not all(isinstance(x, str) for x in o.segs) else _numstr_vs_seg(n, o)
+        if isinstance(o, TokStr):
+            return False        # token strings stand for non-numeric text (harness convention, stated in the evidence)
         raise Unsupported(f'NumStr compared with {o!r}')
     if isinstance(a, TokStr) and isinstance(b, TokStr):
         return a.id == b.id
@@ -325,9 +327,9 @@ def display(I, val, ty=''):
     if isinstance(v, Adt) and v.name == 'Simple':
         return SegStr([('uuid', v.fields[0])])
     if isinstance(v, Adt) and v.name == 'Hyphenated':
-        return SegStr([('uuidh', v.fields[0])])
+        return _hyph(v.fields[0])
     if t == 'Uuid':
-        return SegStr([('uuidh', v)])
+        return _hyph(v)
     if isinstance(v, int) or (is_sym(v) and z3.is_int(v)):
         return int_to_str(v)
     if hasattr(v, 'display_model'):
@@ -336,10 +338,18 @@ def display(I, val, ty=''):
         pre = I.impls.get(('Display', v.name))
         if pre:
             buf = StrBuf()
-            I.run(pre[0] + '::fmt', [val if isinstance(val, Ref) else mkref(v), mkref(buf)])
+            I.run(pre[0] + '::fmt', [mkref(v), mkref(buf)])
             return buf.text
         return OPAQUE_TEXT
     return OPAQUE_TEXT
+
+
+ 
+def _hyph(u):
+    if isinstance(u, int):
+        h = '%032x' % u
+        return '-'.join([h[:8], h[8:12], h[12:16], h[16:20], h[20:]])
+    return SegStr([('uuidh', u)])
 
 
 OPAQUE_TEXT = '⟪opaque⟫'
